@@ -138,7 +138,8 @@ def items(tier, seed):
     for head in ["softmax", "gauss2", "tanh"]:
         for N in ppoN:
             for cshape in ["N", "N1"]:
-                for pv in pvs if N <= 3 else pvs[:1]:
+                # rescaling x8 drives |log pi| to 1e3..1e10 where float32 cannot place a ratio 1 +/- 2 eps
+                for pv in [("x2" if v == "x8" else v) for v in (pvs if N <= 3 else pvs[:1])]:
                     add(fam="ppo", head=head, N=N, pv=pv, cshape=cshape, suffix="-" + cshape)
     for head in ["dpg-mlp", "dpg-vec", "dpg-double", "sale", "mrq"]:
         for N in [1, 2, 3]:
@@ -434,6 +435,11 @@ def work_ppo(item, col):
     cv, ce = cal
     lp32 = actor.log_probability(obs, act)
     lp = f64(lp32)
+    if float(np.max(np.abs(lp))) > 30.0:
+        # ulp(|log pi|) > 2e-6: old_logps = log pi - log(ratio) cannot position the ratio to the comparison
+        # tolerance, and log pi recomputed inside the jitted loss may differ from it by more than that
+        col.outcome("ppo_items_skipped_logp_beyond_float32_ratio_resolution")
+        return
     V32 = jnp.reshape(critic(obs), (-1,))
     V = f64(V32)
     zeros = jnp.zeros(N, dtype=jnp.float32)
@@ -486,8 +492,8 @@ def work_ppo(item, col):
             ratio32 = np.array([ratio_of[p] for p in place], dtype=np.float32)
             old32 = lp32 - jnp.log(jnp.asarray(ratio32))
             r64 = np.exp(lp - f64(old32))
-            if not np.allclose(r64, f64(ratio32), rtol=1e-3, atol=0):
-                # |log pi| so large that lp - log(ratio) is not representable: the placement does not exist
+            if not np.allclose(r64, f64(ratio32), rtol=2e-5, atol=0):
+                # lp - log(ratio) not representable closely enough: the placement does not exist
                 col.outcome("ppo_placements_skipped_ratio_not_realisable_in_float32", len(ALPHA3) ** N)
                 continue
             for adv in itertools.product(ALPHA3, repeat=N):
